@@ -286,6 +286,25 @@ def check(rep, tier, seed):
                 if got != expect:
                     rep.violate("digest-short-reads", {"op": "hash_file", "size": len(data), "read_plan": plan}, expect, got, "digest depends on how read() chunks the file")
 
+        # ---------------------------------------------------------------- (ii-c) the same path with other bytes
+        # a digest is a function of the bytes that are in the file NOW: rewrite files in place (same inode, same length,
+        # time stamps put back) and hash them again through every entry point of the same process
+        for p, data in [f for f in files if 0 < len(f[1]) <= 4096][:8]:
+            st = os.stat(p)
+            new = bytes(b ^ 0x5A for b in data)
+            with open(p, "r+b") as fh:
+                fh.write(new)
+            os.utime(p, ns=(st.st_atime_ns, st.st_mtime_ns))
+            for fmt in ALL7:
+                expect = independent_digest(fmt, p, new)
+                got = {"hash_file": H.hash_file(p, fmt), "multi1": H.multiple_format_hash_file(p, [fmt])[fmt]}
+                rep.case(("rewritten", len(new), fmt))
+                rep.count("loop.rewritten")
+                for ep, g in got.items():
+                    if g != expect:
+                        rep.violate(f"digest-{ep}-stale", {"op": ep, "fmt": fmt, "size": len(new), "file": os.path.basename(p), "rewritten_in_place": True},
+                                    expect, g, f"{ep}({fmt}) of a file rewritten in place (same length, same time stamps) is not the digest of its present bytes")
+            files[files.index((p, data))] = (p, new)
         # ---------------------------------------------------------------- (iii) commands
         small_files = [(p, d) for p, d in files if len(d) <= MiB + 1]
         for p, data in small_files:
